@@ -101,6 +101,16 @@ func getCommentFileInfo(path string) (*MetaInfo, error) {
 		return nil, err
 	}
 
+	// the declared numbers are used to allocate the dict: they can not
+	// exceed the number of bytes in the file (each ip line needs several bytes)
+	stat, err := file.Stat()
+	if err != nil {
+		return nil, err
+	}
+	if int64(metaInfo.SingleIPNum) > stat.Size() || int64(metaInfo.PairIPNum) > stat.Size() {
+		return nil, fmt.Errorf("metaInfo:PairIPNum || SingleIPNum exceeds file size")
+	}
+
 	return metaInfo, nil
 }
 
